@@ -246,6 +246,53 @@ def execute(ctx, calls, order, case):
     return
 
 
+def long_history(ctx):
+    """A call that stays outstanding while the process sends tens of thousands of other messages: later calls must
+    not be confused with it (serials are process-wide and finite)."""
+    peer = clientfix.Peer().ready()
+    conn = peer.proto
+    case = {'kind': 'long-history'}
+    probes = []
+
+    def probe(label):
+        d = conn.callRemote('/obj', 'Probe', interface='org.verif.I', destination='org.verif.Peer', signature='s',
+                            body=[label])
+        out = clientfix.Outcome(d, label)
+        msgs = [m for m in peer.take() if m.fields.get('member') == 'Probe']
+        probes.append({'label': label, 'outcome': out, 'serial': msgs[-1].serial if msgs else None})
+
+    sent = 0
+    probe('first')
+    for target in (2**15, 2**16 - 3, 2**16 - 2, 2**16 - 1, 2**16, 2**16 + 1, 2**16 + 2):
+        while sent < target:
+            conn.callRemote('/obj', 'Noise', interface='org.verif.I', destination='org.verif.Peer', expectReply=False)
+            sent += 1
+            if sent % 4096 == 0:
+                peer.ep.t.take()          # discard the noise without parsing it
+        peer.ep.t.take()
+        probe('after-%d' % sent)
+        sent += 1
+    ctx.count('evaluations')
+    ctx.count('long_history_messages', sent)
+    w = {'probes': [(p['label'], p['serial']) for p in probes]}
+    serials = [p['serial'] for p in probes]
+    if None in serials or len(set(serials)) != len(serials):
+        ctx.report('serial-reuse', 'outstanding calls share a serial after %d intervening messages: %r' % (sent, w['probes']),
+                   w, case)
+        return
+    # answer in reverse order, each with its own token
+    for i, p in enumerate(reversed(probes)):
+        peer.send(RM.build(RM.METHOD_RETURN, 5000 + i, {'reply_serial': p['serial']}, 's', ['answer-' + p['label']]))
+    for p in probes:
+        res = p['outcome'].results
+        if len(res) != 1 or res[0] != ('ok', 'answer-' + p['label']):
+            w['results'] = [(q['label'], [(k, repr(v)[:60]) for k, v in q['outcome'].results]) for q in probes]
+            ctx.report('wrong-completion', 'after a long message history call %r completed with %r' % (
+                p['label'], [(k, repr(v)[:60]) for k, v in res]), w, case)
+            return
+    ctx.count('long_history_ok')
+
+
 def build_calls(rng, n, scripts=None, deadline_all=None):
     calls = []
     for i in range(n):
@@ -345,6 +392,8 @@ def run(ctx):
         ctx.count('random_executions')
         if ctx.stop_early():
             break
+    if si == 0:
+        long_history(ctx)
     ctx.sample({'calls': [c.describe() for c in build_calls(random.Random(1), 2, [('R', 'D'), ('T', 'L')])],
                 'order': [[0, 'R'], [1, 'T'], ['U', 'E'], [0, 'D'], [1, 'L'], ['X', 'X']]})
     for k in ('first_return', 'first_error', 'first_timeout', 'first_loss'):
